@@ -179,6 +179,12 @@ def r1_line_comment_discipline(w):
                     for tk in toks[idx[-1] + 1:]:
                         if tk[0] == 'hardline':
                             break
+                        if tk[0] == 'conv' and isinstance(tk[2], Node) and tk[2].kind == 'Space' and e2.space_leaf_ok(w, tk[1]):
+                            # the stripped space handed to a helper that satisfies the Space-leaf contract (hardline iff its text has a line break)
+                            if tk[2].linebreak is True:
+                                break
+                            if tk[2].linebreak is False:
+                                continue
                         if tk[0] in ('nil', 'space', 'line', 'line_', 'softline', 'softline_'):
                             continue
                         bad = 'the returned document continues with %s right after the comment (only %s in between)' % (
